@@ -176,7 +176,12 @@ class Interp:
             if k == 'tuple':
                 return SV('tuple', tuple(self.fresh(t, base) for t in ty[1]))
             if k == 'mobj':
-                return self.fresh_mobj(ty[1], base)
+                return self.fresh_mobj(ty[1], base, ty[2] if len(ty) > 2 else None)
+            if k == 'odict':
+                from .objects import fresh_odict
+                od = fresh_odict(self, base)
+                od.extra = dict(ty[1])
+                return od
             if k == 'pval':
                 return self.fresh_pval(ty[1], base)
             if k == 'ext':
@@ -198,8 +203,9 @@ class Interp:
                                                                              'id': z3.Const(p.fresh_name(base), TY.Obj)})
         raise OutOfSubset(f"cannot create fresh value of type {ty!r}")
 
-    def fresh_mobj(self, cls, base='o'):
-        schema = self.registry.schema(cls)
+    def fresh_mobj(self, cls, base='o', overrides=None):
+        schema = dict(self.registry.schema(cls))
+        schema.update(overrides or {})
         m = MObj(cls)
         for fld, fty in schema.items():
             m.fields[fld] = self.fresh(fty, f"{base}.{fld}")
@@ -628,9 +634,19 @@ class Interp:
     def ex_IfExp(self, node, frame):
         c = self.eval(node.test, frame)
         if self.spec:
+            ct = z3.simplify(self.truth(c))
+            if z3.is_true(ct):
+                return self.eval(node.body, frame)
+            if z3.is_false(ct):
+                return self.eval(node.orelse, frame)
+            if getattr(self, 'spec_may_fork', True) and not getattr(self, 'in_quant', False):
+                # conditional spec expressions over dynamically typed values: decide the condition on this path
+                if self.path.decide(ct):
+                    return self.eval(node.body, frame)
+                return self.eval(node.orelse, frame)
             a = self.eval(node.body, frame)
             b = self.eval(node.orelse, frame)
-            return self.ite_sv(self.truth(c), a, b, node)
+            return self.ite_sv(ct, a, b, node)
         if self.decide_truth(c, node.test):
             return self.eval(node.body, frame)
         return self.eval(node.orelse, frame)
